@@ -100,7 +100,8 @@ structure OpsOK : Prop where
     capOk cap (x.length + 1) = true ∨ toNatW 32 x + y < Bw 32 ^ x.length →
     ∃ r, smallAdd 32 cap x y = some r
   smallAdd_norm : ∀ {cap : Option Nat} {x r : Big} {y : Nat}, AllLtW 32 x → y < Bw 32 →
-    isNormalized x = true → smallAdd 32 cap x y = some r → isNormalized r = true
+    capOk cap x.length = true → isNormalized x = true → smallAdd 32 cap x y = some r →
+    isNormalized r = true
   fromU64_exact : ∀ {v : Nat}, v < 2 ^ 64 →
     toNatW 32 (fromU64 32 v) = v ∧ AllLtW 32 (fromU64 32 v) ∧
     isNormalized (fromU64 32 v) = true ∧ (fromU64 32 v).length ≤ 2
@@ -191,7 +192,7 @@ theorem pmMulAdd_spec (O : OpsOK) {cap : Option Nat} {r0 : Option Big} {p v : Na
       obtain ⟨a1, a2, a3⟩ := O.smallMul_exact hx hp hc hm
       obtain ⟨b1, b2, b3⟩ := O.smallAdd_exact a2 hv a3 h
       exact ⟨x, rfl, by rw [b1, a1], b2, b3,
-        O.smallAdd_norm a2 hv (O.smallMul_norm hx hp hnx hp0 hm) h⟩
+        O.smallAdd_norm a2 hv a3 (O.smallMul_norm hx hp hnx hp0 hm) h⟩
 
 theorem pmMulAdd_isSome (O : OpsOK) {cap : Option Nat} {r0 : Option Big} {p v bound : Nat}
     (hroom : CapRoomW cap bound) (hp : p < Bw 32) (hp0 : p ≠ 0) (hv : v < Bw 32)
@@ -753,5 +754,107 @@ theorem fromU64_rel (O : OpsOK) {c64 c32 : Option Nat} (hC : Caps c64 c32) {v : 
   obtain ⟨g1, g2, g3, g4⟩ := O.fromU64_exact (v := v) (by unfold B at hv; omega)
   exact ⟨f2, g2, f3, g3, by rw [f1, g1], by rw [f1]; exact h0, capOk_mono f4 hC.one,
     capOk_mono g4 hC.two⟩
+
+theorem bigCompare_lock (O : OpsOK) {c64 c32 : Option Nat} {x y x' y' : Big}
+    (R : Rel c64 c32 x y) (R' : Rel c64 c32 x' y') : bigCompare y y' = bigCompare x x' := by
+  rw [C12.bigCompare_exact R.lx R'.lx R.nx R'.nx, O.bigCompare_exact R.ly R'.ly R.ny R'.ny,
+    R.val, R'.val]
+
+theorem negativeDigitComp_lock (O : OpsOK) {c64 c32 : Option Nat} (hC : Caps c64 c32)
+    (compact : Bool) (F : FloatC) {x y : Big} (R : Rel c64 c32 x y) (fp : ExtFloat) (e : Int)
+    {r : ExtFloat}
+    (h : MinLex.negativeDigitComp c64 (genPow compact) F x fp e = some r) :
+    negativeDigitComp 32 c32 (genPowW 32 compact) F y fp e = some r := by
+  unfold MinLex.negativeDigitComp at h
+  unfold negativeDigitComp
+  simp only at h ⊢
+  obtain ⟨hm1, hm0⟩ := fbh_mant_bounds F (extendedToFloat F (round F roundDown fp))
+  have R0 := fromU64_rel O hC hm1 hm0
+  generalize fbh F (extendedToFloat F (round F roundDown fp)) = theor at *
+  split at h
+  · simp at h
+  · next t1 h1 =>
+    obtain ⟨t1', h1', R1⟩ : ∃ t1', (if -e ≠ 0 then
+        bigintPow 32 c32 (genPowW 32 compact) (fromU64 32 theor.mant) 5 (-e % 4294967296).toNat
+        else some (fromU64 32 theor.mant)) = some t1' ∧ Rel c64 c32 t1 t1' := by
+      by_cases hz : -e ≠ 0
+      · rw [if_pos hz] at h1 ⊢
+        exact bigintPow_lock O hC compact (Or.inr (Or.inl rfl)) R0 h1
+      · rw [if_neg hz] at h1 ⊢
+        simp only [Option.some.injEq] at h1
+        subst h1
+        exact ⟨_, rfl, R0⟩
+    rw [h1']
+    simp only
+    by_cases hpos : theor.exp - e > 0
+    · rw [if_pos hpos] at h ⊢
+      cases ht : MinLex.bigintPow c64 (genPow compact) t1 2 ((theor.exp - e) % 4294967296).toNat with
+      | none => rw [ht] at h; simp at h
+      | some t =>
+        rw [ht] at h
+        obtain ⟨t', ht', R2⟩ := bigintPow_lock O hC compact (Or.inl rfl) R1 ht
+        rw [ht']
+        simp only at h ⊢
+        rw [bigCompare_lock O R R2]
+        exact h
+    · rw [if_neg hpos] at h ⊢
+      by_cases hneg : theor.exp - e < 0
+      · rw [if_pos hneg] at h ⊢
+        cases ht : MinLex.bigintPow c64 (genPow compact) x 2 (-(theor.exp - e) % 4294967296).toNat with
+        | none => rw [ht] at h; simp at h
+        | some t =>
+          rw [ht] at h
+          obtain ⟨t', ht', R2⟩ := bigintPow_lock O hC compact (Or.inl rfl) R ht
+          rw [ht']
+          simp only at h ⊢
+          rw [bigCompare_lock O R2 R1]
+          exact h
+      · rw [if_neg hneg] at h ⊢
+        simp only at h ⊢
+        rw [bigCompare_lock O R R1]
+        exact h
+
+/-- **`slow` in lock-step**: on valid input with a non-zero significand and a moderate decimal
+    exponent, whenever the 64-bit-limb build returns, the 32-bit-limb build returns the same
+    extended float — provided its back-end has room for the parsed significand. -/
+theorem slow_lock (O : OpsOK) {c64 c32 : Option Nat} (hC : Caps c64 c32) (compact : Bool)
+    {F : FloatC} (hmd1 : 1 ≤ F.maxDigits) (hmd2 : F.maxDigits ≤ 1000000)
+    (hroom : CapRoomW c32 (10 ^ (F.maxDigits + 1)))
+    {int frac : List UInt8} {e : Int} (hv : Valid int frac e)
+    (hm0 : (parseNumber int frac e).mantissa ≠ 0)
+    (hlo : -1000 ≤ (parseNumber int frac e).exponent) (hhi : (parseNumber int frac e).exponent ≤ 1000)
+    (fp : ExtFloat) {r : ExtFloat}
+    (h : MinLex.slow c64 (genPow compact) F (parseNumber int frac e) fp int frac = some r) :
+    slow 32 c32 (genPowW 32 compact) F (parseNumber int frac e) fp int frac = some r := by
+  have hT10 := genPow_pow10OK compact
+  have hT9 := genPowW_pow10OK9 compact
+  unfold MinLex.slow at h
+  simp only at h
+  cases hpm : MinLex.parseMantissa c64 (genPow compact) int frac F.maxDigits with
+  | none => rw [hpm] at h; simp at h
+  | some res =>
+    obtain ⟨bm, digits⟩ := res
+    rw [hpm] at h
+    simp only at h
+    obtain ⟨p1, p2, p3, p4, p5⟩ := SlowP.parseMantissa_some hT10 hmd1 hv.1 hv.2.1 hv.2.2.1 hpm
+    obtain ⟨_, _, _, _, hnz, _⟩ := slow_bookkeeping hT10 hmd1 hmd2 hv hm0 hlo hhi hpm
+    have hd := (sigDigits_facts hv).2.2.2.2
+    have hml := mantSpec_lt hd F.maxDigits
+    have hpow : 10 ^ (mantSpec (sigDigits int frac) F.maxDigits).2 ≤ 10 ^ (F.maxDigits + 1) :=
+      Nat.pow_le_pow_right (by omega) hml.2
+    obtain ⟨bm', digits', hpm'⟩ := parseMantissa_total O (cap := c32) hT9 hmd1 hv.1 hv.2.1 hv.2.2.1
+      hroom (by omega)
+    obtain ⟨q1, q2, q3, q4, q5⟩ := parseMantissa_some O hT9 hmd1 hv.1 hv.2.1 hv.2.2.1 hpm'
+    have hdig : digits' = digits := by rw [q2, p2]
+    subst hdig
+    have R : Rel c64 c32 bm bm' :=
+      ⟨p3, q3, normalized_of_normOK p3 p5, q5, by rw [p1, q1], hnz, p4, q4⟩
+    unfold slow
+    simp only [hpm']
+    by_cases hge : wrapI32 (scientificExponent (parseNumber int frac e) + 1 - asI32 digits') ≥ 0
+    · rw [if_pos hge] at h ⊢
+      exact positiveDigitComp_lock O hC compact F R _ h
+    · rw [if_neg hge] at h ⊢
+      exact negativeDigitComp_lock O hC compact F R _ _ h
 
 end MinLex.W.SP
